@@ -307,6 +307,56 @@ def query_aliases(run, rng):
     return n
 
 
+def reference_parens(run, thorough):
+    """parentheses the language's precedence table makes redundant: every (context position x child operator) pair of the operator table and random trees, written
+    with only the parentheses the REFERENCE table requires and with every operand parenthesised; the library must read the same tree from both (a grouping that
+    changes when redundant parentheses are inserted is a violation whichever of the two texts the implementation reads wrongly)"""
+    import exprgen, gen_grammar
+    from props import C02
+    try:
+        T = exprgen.Table()
+    except (gen_grammar.GrammarError, RuntimeError) as e:
+        run.tie_broken('G-LR/G-LEX translation of parser.y / lexer.l', str(e))
+        return 0
+    drv, err = vlib.build_extract('c02', 'Extract_C02.v', 'drv_c02') if os.path.exists(os.path.join(vlib.COQ, 'theories', 'ExprSyntax.vo')) else (None, 'ExprSyntax.vo missing')
+    if drv is None:
+        run.tie_broken('extraction of the expression syntax model', err)
+        return 0
+    cases, ntri, nchain, nrand = C02.build_cases(T, run, False)
+    pick = cases[:ntri] + run.rng.sample(cases[ntri:], min(len(cases) - ntri, 1500 if thorough else 500))
+    rend = exprgen.Model(drv).render_many([c['tree'] for c in pick])
+    nsh = 8
+    shards = [vlib.Job() for _ in range(nsh)]
+    for k, j in enumerate(shards):
+        j.case('rp%d' % k).model('xta', exprgen.FIXTURE_XTA)
+    plan = []
+    for idx, (c, r) in enumerate(zip(pick, rend)):
+        a, b = T.text(r['refmin'], fields=c['fields']), T.text(r['full'], fields=c['fields'])
+        if a == b:
+            continue
+        shards[idx % nsh].expr(a)
+        shards[idx % nsh].expr(b)
+        plan.append((idx % nsh, c, a, b))
+    big = vlib.Job()
+    for j in shards:
+        j.end(); big.parts += j.parts; big.ids += j.ids
+    res = vlib.run_jobs(big, shards=nsh)
+    cursor = {k: 1 for k in range(nsh)}
+    for sh, c, a, b in plan:
+        cs = res['rp%d' % sh]
+        if cs['status'] != 'ok' or cursor[sh] + 1 >= len(cs['cmds']):
+            run.fail('parser crashed or stopped while parsing expressions (%s)' % cs['status'], dict(text=a, status=cs['status']), shape='crash')
+            break
+        la, lb = cs['cmds'][cursor[sh]][2], cs['cmds'][cursor[sh] + 1][2]
+        cursor[sh] += 2
+        ta, tb = next((l for l in la if l.startswith('tree ')), None), next((l for l in lb if l.startswith('tree ')), None)
+        ea, eb = [l for l in la if l.startswith('error')], [l for l in lb if l.startswith('error')]
+        if ta != tb or bool(ea) != bool(eb):
+            run.fail('redundant parentheses change the expression: %r reads as %s, %r as %s' % (a, (ta or ea[:1]), b, (tb or eb[:1])), dict(minimal=a, parenthesised=b, tree_minimal=ta, tree_parenthesised=tb, errors=(ea + eb)[:2]),
+                     shape='parens:reference-grouping:' + c['name'].split(':')[0])
+    return len(plan)
+
+
 def check(run):
     thorough = run.tier == 'thorough'
     rng = run.rng
@@ -319,6 +369,7 @@ def check(run):
     cstats = comments_at_character_level(run, thorough)
     cstats['alias_twin_productions'] = alias_twins(run)
     cstats['query_alias_rewrites'] = query_aliases(run, rng)
+    cstats['reference_parenthesis_pairs'] = reference_parens(run, thorough)
     cstats.update({'blank_' + k: v for k, v in blanks_at_token_ends(run, thorough).items()})
     n = 2500 if thorough else 320
     j = vlib.Job()
